@@ -159,6 +159,39 @@ pub fn pair_grid() -> Vec<(TypeGraph, &'static str)> {
             }
         }
     }
+    // later additions go last (indices above stay what they were): the only mention of a type
+    // sits below nine / twelve constructors, at an edge or at the root
+    let template = out[0].0.clone();
+    for site in ROOT_SITES {
+        if matches!(*site, "result_err" | "event" | "event_to") {
+            continue;
+        }
+        for w in ["deep9", "deep12"] {
+            for (root_wrap, edge_wrap) in [("direct", w), (w, "direct"), (w, w)] {
+                for mode in ["none", "zod"] {
+                    let mut g = template.clone();
+                    g.edges = vec![graph::Edge { from: 0, to: 1, wrap: edge_wrap.to_string() }, graph::Edge { from: 1, to: 2, wrap: w.to_string() }, graph::Edge { from: 1, to: 5, wrap: edge_wrap.to_string() }];
+                    g.roots = vec![graph::Root { site: site.to_string(), wrap: root_wrap.to_string(), node: 0, file: 0 }];
+                    g.qualify = false;
+                    out.push((g, mode));
+                }
+            }
+        }
+    }
+    // a serde type in an inline module with a non-serde namesake in an earlier private module
+    for site in ROOT_SITES {
+        if *site == "result_err" {
+            continue;
+        }
+        for (which, mode) in [(0usize, "none"), (0, "zod"), (1, "none"), (1, "zod"), (2, "zod")] {
+            let mut g = template.clone();
+            g.roots = vec![graph::Root { site: site.to_string(), wrap: "direct".to_string(), node: 0, file: 0 }];
+            g.nodes[which].inline_mod = true;
+            g.nodes[which].shadowed = true;
+            g.qualify = false;
+            out.push((g, mode));
+        }
+    }
     out
 }
 
